@@ -5,6 +5,9 @@ from props.common import mk, alpha_for, bounds
 ASSUMPTIONS = ["patterns: corpus P1; haystacks: all byte strings of the listed lengths (no alphabet restriction: no oracle is involved)"]
 
 
+ALLQ = {r"a*", r"\bx", r"[a-z]+[0-9]+", r"foo|bar", r"(a)(b)?", r".*\.tx", r"$", r"\d:\d"}
+
+
 def items(tier):
     out = []
     maxL = 3 if tier == "quick" else 4
@@ -12,8 +15,10 @@ def items(tier):
         for L in ([maxL] if tier == "quick" else range(0, maxL + 1)):
             out.append(mk("C11", p, "basic", L, "", strategy=strat))
         for pre, post in corpus.windows(p):
-            out.append(mk("C11", p, "basic", maxL, "", strategy=strat, pre=pre, post=post))
-        if tier != "quick" or (len(out) % 6 == 0):
+            # windows of patterns with any-char constructs: well-formed UTF-8 only (the ill-formed-UTF-8 defect class is
+            # already represented by the unwindowed item of the same pattern; here it would only multiply its regions)
+            out.append(mk("C11", p, "basic", maxL, alpha_for(p), strategy=strat, pre=pre, post=post))
+        if tier != "quick" or p in ALLQ:
             out.append(mk("C11", p, "all", 2 if tier == "quick" else 3, "", strategy=strat))
     return out
 
